@@ -19,7 +19,7 @@ RULE = {
     "quick": "W1: all batches of length <=3 over 4 colliding substrates x 2 rules x cache {off, size 1, 2, 32768} x direction x id reuse <=2, second fit() on the same reactor with other rule objects; "
     "W2: all cuts of batches of 4 entries (entry_n_jobs>1) and of 3 rules (parallel_rules); W1r: real engine on 12 batches; W3: SynCRN.build(parallel=True) through an in-process ordered executor vs serial for every subset of >=4 of 6 seeds x rule lists x repeats x frontier x max_workers; W4: batched vs one-shot clustering (6 pools x all orders x batch sizes); "
     "W5: validators and balance check under every cut of 5 rows vs per-row calls, the same records checked on one column, another and the first again (serial and batched); W6: real loky pool and real ProcessPoolExecutor vs serial; non-trivial = cache hit or batch cut occurred",
-    "thorough": "batches of length <=4, id reuse <=3, all cuts of 5 entries",
+    "thorough": "batches of length <=3 with id reuse <=3, all cuts of 5 entries, W3 over every subset of >=3 seeds x 5 rule lists",
 }
 
 # two reactive, the first one again in another spelling (exact repeats arise from sequences with repetition), one look-alike
@@ -77,7 +77,7 @@ def expected_stub(entries, rules, invert):
 
 
 def gen_w1(tier, seed):
-    L = 3 if tier == "quick" else 4
+    L = 3  # the thorough tier deepens the id-reuse bound (3 instead of 2), not the batch length: 4-entry batches x bound 3 cost hours
     for n in range(1, L + 1):
         for seq in itertools.product(range(len(SUBSTRATES)), repeat=n):
             for cache in (None, 1, 2, 32768):
@@ -424,9 +424,9 @@ def gen_w3(tier, seed):
     n = len(W3_SEEDS)
     for mask in range(1, 2 ** n):
         seeds = [W3_SEEDS[i] for i in range(n) if mask >> i & 1]
-        if len(seeds) < (4 if tier == "quick" else 2):
+        if len(seeds) < (4 if tier == "quick" else 3):
             continue
-        for rules in ([0, 1], [0, 1, 2], [2, 3]) if tier == "quick" else ([0], [0, 1], [1, 0], [0, 1, 2], [2, 1, 0], [2, 3], [3, 2, 0, 1]):
+        for rules in ([0, 1], [0, 1, 2], [2, 3]) if tier == "quick" else ([0, 1], [1, 0], [0, 1, 2], [2, 3], [3, 2]):
             yield {"seeds": seeds, "rules": rules}
 
 
@@ -526,7 +526,7 @@ def subchecks(tier, seed):
         Sub("W2_batch_cuts", gen_w2, check_w2, key=lambda c: f"{c['mode']}|{c['seq']}|cache={c['cache']}", rule=RULE[tier]),
         Sub("W1r_real_engine", gen_w1r, check_w1r, key=lambda c: f"{c['seq']}|cache={c['cache']}", rule=RULE[tier]),
         Sub("W1f_rule_pre_filter", gen_w1f, check_w1f, key=lambda c: f"{c['seq']}|{c['engine']}", rule="9 batches over 7 substrates of different chemistry and 4 rules, in which a later substrate admits a rule the first does not x rule pre-filter engines nx / turbo / sing, real rule engine, serial: batch vs each entry alone"),
-        Sub("W3_network_expansion", gen_w3, check_w3, key=lambda c: f"{'+'.join(c['seeds'])}|rules{c['rules']}", rule="every seed subset (quick: >=4 of 6 seeds) x rule lists, repeats 2/3, frontier on/off: "
+        Sub("W3_network_expansion", gen_w3, check_w3, key=lambda c: f"{'+'.join(c['seeds'])}|rules{c['rules']}", rule="every seed subset (quick: >=4, thorough: >=3 of 6 seeds) x rule lists (quick 3, thorough 5), repeats 2/3, frontier on/off: "
             "SynCRN.build(parallel=True, max_workers 1/2/3/default) with the process pool replaced by an in-process stand-in (pickled copies, ordered map) vs the serial build; non-trivial = more than 16 rule applications attempted"),
         Sub("W4_batched_clustering", gen_w4, check_w4, key=lambda c: f"pool{c}", rule=RULE[tier]),
         Sub("W5_validators", gen_w5, check_w5, key=lambda c: c["what"], rule=RULE[tier]),
